@@ -312,6 +312,36 @@ theorem phaseIndices_shape (c T : Nat) (hc : 0 < c) (pi : List (List Nat))
   · rw [Nat.add_mul_mod_self_right, Nat.mod_eq_of_lt hi]
 
 
+/-- `indices_selected_phases(sel)` (all phases valid): the result is sorted and is a
+rearrangement of the complete-year indices `p, p + c, …` of the selected phases (with
+multiplicity); in particular all indices address existing rows of `anomaly()` -/
+theorem selected_indices_spec (c T : Nat) (hc : 0 < c) (sel : List Nat) (hs : ∀ p ∈ sel, p < c) :
+    ∃ idx, indicesSelectedPhases c T sel = .ok idx
+      ∧ idx.Pairwise (· ≤ ·)
+      ∧ idx.Perm ((sel.map fun p => (List.range (T / c)).map fun y => p + y * c).flatten)
+      ∧ ∀ t ∈ idx, t < T := by
+  have hall : sel.all (· < c) = true := by
+    simp only [List.all_eq_true, decide_eq_true_eq]; exact hs
+  have hrows : (sel.map fun p => ((List.range c).map fun i =>
+        (List.range (T / c)).map fun y => i + y * c).getD p [])
+      = sel.map fun p => (List.range (T / c)).map fun y => p + y * c := by
+    apply List.map_congr_left
+    intro p hp
+    simp [List.getD, List.getElem?_map, List.getElem?_range (hs p hp)]
+  refine ⟨_, by simp only [indicesSelectedPhases, phaseIndices, Nat.ne_of_gt hc, if_false, hall,
+    if_true, hrows], sortNat_sorted _, sortNat_perm _, ?_⟩
+  intro t ht
+  have ht' := (sortNat_perm _).mem_iff.mp ht
+  simp only [List.mem_flatten, List.mem_map] at ht'
+  obtain ⟨row, ⟨p, hp, rfl⟩, htrow⟩ := ht'
+  simp only [List.mem_map, List.mem_range] at htrow
+  obtain ⟨y, hy, rfl⟩ := htrow
+  have h1 : (y + 1) * c ≤ (T / c) * c := Nat.mul_le_mul_right c hy
+  have h2 : (T / c) * c ≤ T := Nat.div_mul_le_self T c
+  have := hs p hp
+  rw [Nat.succ_mul] at h1
+  omega
+
 /-! ## 5. Anomalies add back to the observable and have zero phase means -/
 
 /-- **`anomaly + phase_mean[phase] = observable`** for every cycle length `c ≥ 1`
@@ -591,6 +621,7 @@ example : phaseMean 3 1 [[0], [12], [24], [36], [48], [12], [0]]
 /-- a cycle longer than the record: NaN rows for the phases without sample -/
 example : phaseMean 3 1 [[4], [6]] = [some [4], some [6], none] := by decide +kernel
 example : phaseIndices 3 7 = some [[0, 3], [1, 4], [2, 5]] := by decide +kernel
+example : indicesSelectedPhases 3 7 [2, 0] = .ok [0, 2, 3, 5] := by decide +kernel
 /-- the invariant is satisfiable: any constructed object has it -/
 example : ∃ o, Obj.init exFull 3 false none = some o ∧ o.Inv := by
   refine ⟨_, rfl, (init_inv exFull 3 false none _ exFull_wf rfl).1⟩
